@@ -7,22 +7,27 @@
    character; a flush emits the pending partial line.                                          *)
 EXTENDS Sgr
 
-\* state: dec (decoder over everything consumed so far: pen, pending line), out (emitted lines)
-Init0 == [dec |-> DecInit, out |-> <<>>, raw |-> 0]
+\* state: px[p] = [dec (decoder over everything proxy p consumed so far: pen, pending line), raw (pending
+\* events)] for each proxy (stdout = 1, stderr = 2: each has its own decoder and buffer), out (emitted lines)
+Proxy0 == [dec |-> DecInit, raw |-> 0]
+Init0 == [px |-> <<Proxy0, Proxy0>>, out |-> <<>>]
 
-\* write(chunk): chunk is a sequence of events; raw counts pending events (the code's buffer is
-\* non-empty iff something - even only an escape sequence - is pending)
-RECURSIVE WriteEvs(_, _)
-WriteEvs(s, es) ==
+\* write(chunk) on proxy p: chunk is a sequence of events; raw counts pending events (the code's buffer
+\* is non-empty iff something - even only an escape sequence - is pending)
+RECURSIVE WriteEvs(_, _, _)
+WriteEvs(s, p, es) ==
     IF es = <<>> THEN s
     ELSE LET e == Head(es)
-             d == DecStep(s.dec, e)
+             q == s.px[p]
+             d == DecStep(q.dec, e)
          IN IF e[1] = "nl"
-            THEN WriteEvs([dec |-> [d EXCEPT !.lines = <<>>], out |-> Append(s.out, s.dec.line), raw |-> 0], Tail(es))
-            ELSE WriteEvs([s EXCEPT !.dec = d, !.raw = @ + 1], Tail(es))
-Write(s, es) == WriteEvs(s, es)
-Flush(s) == IF s.raw = 0 THEN s
-            ELSE [dec |-> [s.dec EXCEPT !.line = <<>>], out |-> Append(s.out, s.dec.line), raw |-> 0]
+            THEN WriteEvs([px |-> [s.px EXCEPT ![p] = [dec |-> [d EXCEPT !.lines = <<>>], raw |-> 0]],
+                           out |-> Append(s.out, q.dec.line)], p, Tail(es))
+            ELSE WriteEvs([s EXCEPT !.px[p] = [dec |-> d, raw |-> q.raw + 1]], p, Tail(es))
+Write(s, p, es) == WriteEvs(s, p, es)
+Flush(s, p) == IF s.px[p].raw = 0 THEN s
+               ELSE [px |-> [s.px EXCEPT ![p] = [dec |-> [s.px[p].dec EXCEPT !.line = <<>>], raw |-> 0]],
+                     out |-> Append(s.out, s.px[p].dec.line)]
 
 \* property part: the lines the console shows (decoded from ITS output by the same automaton)
 \* are the lines the model emitted - characters and pens
